@@ -53,7 +53,7 @@ func rulesC20(e *Engine, r *Report) {
 	}
 
 	// ---------------------------------------------------------------- R20.2
-	r.Rule("R20.2", "delete decision: the stray partial is removed only for a .part file at least minAge old and only if either the cache knows the path beyond `received` and (no companion was read or its hash equals the cached hash), or the receive log answers yes for the relative name with the companion's hash; the companion is removed only on paths that also satisfy the partial's condition, and only for a logged file or through the log arm")
+	r.Rule("R20.2", "delete decision: the stray partial is removed only for a .part file at least minAge old and only if the companion is absent or was read without error, and either the cache knows the path beyond `received` - validated, finalized or logged, NOT failed - and (no companion exists or its hash equals the cached hash), or the receive log answers yes for the relative name with the companion's hash; the companion is removed only on paths that also satisfy the partial's condition, and only for a logged file or through the log arm")
 	if cl != nil {
 		rel := `call(strings.TrimSuffix)(p0[(builtin(len)(^p0.rootDir) + 1):], call(filepath.Ext)(p0))`
 		cmpPath := `call(filepath.Join)([^p0.rootDir, (` + rel + ` + ".cmp")])`
@@ -67,6 +67,14 @@ func rulesC20(e *Engine, r *Report) {
 			C("(^p1 <= call(time.Since)(invoke(os.FileInfo.ModTime)(p1)))", "aged"),
 			C("("+sc.received+" < "+state+")", "beyondReceived"),
 			C("("+state+" == "+sc.logged+")", "isLogged"),
+			C("("+state+" != "+sc.failed+")", "notFailed"),
+			C("("+state+" == "+sc.logged+")", "notFailed"),
+			C("("+state+" == "+sc.finalized+")", "notFailed"),
+			C("("+state+" == "+sc.validated+")", "notFailed"),
+			C("("+state+" == "+sc.logged+")", "beyondReceived"),
+			C("("+state+" == "+sc.finalized+")", "beyondReceived"),
+			C("("+state+" == "+sc.validated+")", "beyondReceived"),
+			C("(call(stage.readLocalCompanion)("+cmpPath+", "+rel+")#1 == nil)", "cmpRead"),
 			C("("+comp+" == nil)", "noCompanion"),
 			C("("+compCall+" == nil)", "noCompanion"),
 			C("(call(os.Stat)("+cmpPath+")#1 != nil)", "noCompanion"),
@@ -79,10 +87,13 @@ func rulesC20(e *Engine, r *Report) {
 			C("invoke(sts.ReceiveLogger.WasReceived)(^p0.logger, "+rel+", "+comp+".Hash, §)", "inLog"),
 		)
 		partOK := func(l LabelSet) bool {
-			return l.HasAll("isPart", "aged") && ((l.Has("beyondReceived") && l.HasAny("noCompanion", "hashMatches")) || l.Has("inLog"))
+			// `failed` sorts above `received` numerically but is not "beyond" it: nothing was delivered (F19a);
+			// a companion that exists but could not be read licenses nothing (F19b)
+			readable := l.Has("cmpRead") || (l.Has("noCompanion") && !l.Has("cmpExists"))
+			return l.HasAll("isPart", "aged") && readable && ((l.HasAll("beyondReceived", "notFailed") && l.HasAny("noCompanion", "hashMatches")) || l.Has("inLog"))
 		}
 		n := e.Guarded(r, "R20.2", e.ShortName(top)+": os.Remove[Part]", cl, e.instrMatch(`call(os.Remove)(§ + ".part")]))`), cls, partOK,
-			".part, aged, and (state > received with no/matching companion hash | WasReceived(rel, companion hash))")
+			".part, aged, companion absent or READ, and (state > received and not failed, with no/matching companion hash | WasReceived(rel, companion hash))")
 		r.Min("R20.2", "partial removals in the cleaner", n, 1)
 		n = e.Guarded(r, "R20.2", e.ShortName(top)+": os.Remove[Cmp]", cl, e.instrMatch(`call(os.Remove)(§ + ".cmp")]))`), cls,
 			func(l LabelSet) bool {
